@@ -234,7 +234,7 @@ static void exec_c14(const Plan& p, Outcome& out) {
             for (long m : mm) {
               if (n) memcpy(B.data, base.data(), n);
               int delta = (int)((cseed >> 7) % 3) - 1; if (delta == 0) delta = 1;
-              if (m >= 0) B.data[m] = (char)(B.data[m] + delta);
+              if (m >= 0) { if (((cseed >> 11) + (uint64_t)m) % 3 == 0) B.data[m] = (char)(B.data[m] ^ 0x80); else B.data[m] = (char)(B.data[m] + delta); }   // +-1 or an ASCII/non-ASCII pair
               for (int tail = 0; tail < 2; tail++) {
                 // bytes after the operands: equal on both sides vs different
                 for (size_t k = 0; k < da; k++) A.data[n + k] = 'x';
@@ -257,6 +257,28 @@ static void exec_c14(const Plan& p, Outcome& out) {
           }
           A.free();
         }
+        h = mix64(h ^ n);
+      } else if (op.kind == "MemcmpHuge") {
+        // operands of 2^32 bytes and more (untouched zero pages, virtual memory only): a single differing byte
+        if (!simmem::guarded()) { out.ops_executed++; out.op_hashes.push_back(h); continue; }
+        size_t n = ((size_t)1 << 32) + (size_t)op.A(0) % 4096;
+        size_t at = (size_t)op.A(1) % (1u << 20) + 64;           // mismatch early enough to stay cheap
+        char* A = simmem::caller_raw(n); char* B = simmem::caller_raw(n);
+        for (int with = 0; with < 2; with++) {
+          if (with) B[at] = 1;
+          for (auto& c : kCmps) {
+            out.detail = std::string(c.name) + " n=2^32+" + std::to_string(n - ((size_t)1 << 32)) + " mismatch_at=" + (with ? std::to_string(at) : std::string("last"));
+            if (!with) { A[n - 1] = 7; }   // equal prefix is not scanned in full: differ in the last byte instead
+            bool eq = c.eq(A, B, n);
+            int cm = c.cmp(A, B, n);
+            g_cmp_cases++;
+            if (eq) violate("model", "InlinedMemcmpEq:result", "4 GiB operands that differ were reported equal");
+            if (sgn(cm) != (with ? -1 : 1)) violate("model", "InlinedMemcmp:sign", "wrong sign for 4 GiB operands: " + std::to_string(cm));
+            if (!with) A[n - 1] = 0;
+          }
+        }
+        simmem::caller_free(A); simmem::caller_free(B);
+        probe("c14_operands_of_4GiB");
         h = mix64(h ^ n);
       } else if (op.kind == "KeyLookup") {
         // through the API: keys are caller-owned bytes ending at guard pages; probes too
@@ -325,6 +347,7 @@ static void gen_c14(uint64_t seed, uint64_t run, const std::string& tier, Plan& 
   p.knobs["envseed"] = (int64_t)(mix64(rs ^ 0x77) >> 1);
   size_t n = (size_t)(run % (tier == "thorough" ? 261 : 131));
   { p.ops.emplace_back(); Op& op = p.ops.back(); op.kind = "Memcmp"; op.a = {(int64_t)n, (int64_t)(r.next() >> 1), -1, -1}; }
+  if (r.chance(1, 400)) { p.ops.emplace_back(); Op& op = p.ops.back(); op.kind = "MemcmpHuge"; op.a = {(int64_t)r.below(4096), (int64_t)r.below(1 << 20)}; }
   for (int k = 0; k < 2; k++) { p.ops.emplace_back(); Op& op = p.ops.back(); op.kind = "KeyLookup"; op.a = {(int64_t)(k == 0 ? n : r.below(131)), (int64_t)(r.next() >> 1), (int64_t)r.below(7), (int64_t)k}; }
 }
 
